@@ -51,7 +51,14 @@ func dryRunField(p *core.Prog) (*types.Named, string) {
 	if w == nil {
 		return nil, ""
 	}
-	for _, fs := range fieldStores(core.WithAnon(w), func(n *types.Named, f string) bool { return n.Obj().Name() == "Sandbox" }) {
+	// the option is a literal, or a method / function value the constructor returns
+	fns := core.WithAnon(w)
+	for _, ret := range core.Returns(w) {
+		if len(ret.Results) == 1 {
+			fns = append(fns, hookFuncs(p, core.ReturnOperand(ret, 0), 0)...)
+		}
+	}
+	for _, fs := range fieldStores(fns, func(n *types.Named, f string) bool { return n.Obj().Name() == "Sandbox" }) {
 		if c, ok := fs.Store.Val.(*ssa.Const); ok && c.Value != nil {
 			dryRunConst = c
 			return core.FieldAddrInfo(fs.Addr)
@@ -112,8 +119,8 @@ func c19R1(p *core.Prog, r *core.Report) {
 		return
 	}
 	prim := primitiveMutators(p)
-	if len(prim) < 12 {
-		r.Undecided(rule, "-", "mutator floor", "-", fmt.Sprintf("only %d primitive mutators found (state-changing request builders and layout writers); 12 confirmed by hand", len(prim)))
+	if len(prim) < 6 {
+		r.Undecided(rule, "-", "mutator floor", "-", fmt.Sprintf("only %d primitive mutators found (state-changing request builders and layout writers); 13 on the tree the rule was written for", len(prim)))
 	}
 	bindings := luaBindings(p)
 	gated := func(site ssa.Instruction) bool {
@@ -186,7 +193,19 @@ func c19R2(p *core.Prog, r *core.Report) {
 			root = root.Parent()
 		}
 		isDry := isConst && k.Value != nil && dryRunConst != nil && constant.Compare(k.Value, token.EQL, dryRunConst.Value)
-		ok := isConst && ((isDry && root.Name() == "WithDryRun") || (!isDry && root.Name() == "New"))
+		byOption := root.Name() == "WithDryRun"
+		if w := p.Func(sandboxRel, "WithDryRun"); w != nil && !byOption {
+			for _, ret := range core.Returns(w) {
+				if len(ret.Results) == 1 {
+					for _, hf := range hookFuncs(p, core.ReturnOperand(ret, 0), 0) {
+						if hf == root {
+							byOption = true
+						}
+					}
+				}
+			}
+		}
+		ok := isConst && ((isDry && byOption) || (!isDry && root.Name() == "New"))
 		r.Check(ok, rule, fname, lab.next("store "+f), p.Pos(fs.Store.Pos()), "writer of the dry-run flag (allowed: WithDryRun sets true, New initialises false)")
 	}
 	// the composite literal in New initialises the field through a FieldAddr store, counted above.
